@@ -74,11 +74,12 @@ fn store_case(ctx: &mut Ctx, case: u64, rng: &mut Rng, scratch: &Scratch) {
     let mut trace = vec![];
     let mut upgraded = false;
     let mut tick = 0u64;
-    for step in 0..rng.range(4, 30) {
+    let n_steps = rng.range(4, 30);
+    for step in 0..n_steps {
         let d = rng.below(3);
         let id = docs[d].ns.id();
         tick += 1;
-        match rng.below(7) {
+        match rng.below(9) {
             0 | 1 => {
                 let write = rng.chance(1, 2);
                 let cap = if write { Capability::Write(docs[d].ns.clone()) } else { Capability::Read(id) };
@@ -175,6 +176,16 @@ fn store_case(ctx: &mut Ctx, case: u64, rng: &mut Rng, scratch: &Scratch) {
                     return;
                 }
             }
+            7 => {
+                // a store call that fails (it names a document that does not exist) must not cost any
+                // other document anything it already had — in particular not a capability imported
+                // a moment ago and not yet flushed
+                let missing = namespace(77).id();
+                let r1 = store.set_download_policy(&missing, iroh_docs::store::DownloadPolicy::default());
+                let r2 = store.register_useful_peer(missing, [3u8; 32]);
+                trace.push(format!("failing calls on a missing document -> {} {}", r1.is_ok(), r2.is_ok()));
+                ctx.count("failing_calls_on_missing_document", 1);
+            }
             _ => {
                 // merge with a capability of another document must fail and change nothing
                 let other = (d + 1) % 3;
@@ -187,6 +198,11 @@ fn store_case(ctx: &mut Ctx, case: u64, rng: &mut Rng, scratch: &Scratch) {
                     return;
                 }
             }
+        }
+        // listing takes a snapshot and thereby commits the open batch: do it only now and then, so
+        // that several operations share one uncommitted batch (always after the last step)
+        if step + 1 < n_steps && rng.chance(1, 2) {
+            continue;
         }
         match kinds(&mut store) {
             Ok(k) => {
